@@ -379,6 +379,7 @@ func main() {
 	o.b.WriteString("/-! GENERATED by harness/cmd/extract from /repo's working tree — do not edit.\nPlain data only; the obligations about it are in `Goirc/FactsCheck.lean`. -/\nnamespace Facts\n\n")
 	factsClient(cl, o)
 	factsState(st, o)
+	factsClosure(cl, st, o)
 	o.b.WriteString("\nend Facts\n")
 	new := []byte(o.b.String())
 	if old, err := os.ReadFile(*outPath); err == nil && bytes.Equal(old, new) {
